@@ -295,3 +295,579 @@ Print Assumptions pratt_roundtrip_bounded.
 
 Example enumeration_sizes : (length depth2, length spines, length mixed) = (25344, 24334, 11700).
 Proof. vm_compute. reflexivity. Qed.
+
+
+(* ================================================================== *)
+(* pratt_roundtrip, UNBOUNDED, token level, operator fragment           *)
+(* ================================================================== *)
+(* For every expression built from nil/true/false, variables, string literals, the three unary
+   operators, the sixteen binary operators, &&, || and .. (any size, any nesting):
+   parsing the token sequence that the pretty printer's parenthesisation rule prescribes
+   (`tk_expr`, the token-level twin of Pretty.pp_expr) gives the expression back, with the
+   default fuel.  General associativity / precedence lemmas follow.
+   Proof idea: `claim e p` says that parse_precedence(q) (q <= p) on `tk_expr p e ++ t0 :: rest`
+   equals "the rest of parse_precedence(q) with left operand e" (`K`), at an explicitly computed
+   fuel; it is proved by induction on e, the parenthesised case reusing the unparenthesised one. *)
+Module Pratt.
+
+Definition R (f : nat) : rec := knot rules_ref f.
+Definition sst (pv c : token) (r : list token) : pstate :=
+  mkP pv c r false [new_comp FScript] [] [] None.
+Definition sstr (pv : token) (l : list token) : pstate :=
+  match l with c :: r => sst pv c r | [] => sst pv pv [] end.
+
+Lemma R_S : forall f, R (S f) = step rules_ref (R f).
+Proof. reflexivity. Qed.
+
+Lemma advance_sst : forall pv c t r, tk t <> TError ->
+  advance (sst pv c (t :: r)) = POk (tt, sst c t r).
+Proof.
+  intros pv c t r H. unfold advance, sst. cbn [p_cur p_rest p_stm p_comps p_classes p_attrs p_opener].
+  destruct (tk t); try reflexivity. contradiction.
+Qed.
+
+Lemma resolve_variable_sst : forall x pv c r, resolve_variable x (sst pv c r) = POk (tt, sst pv c r).
+Proof.
+  intros x pv c r. unfold resolve_variable, bind, compiler_, sst. cbn [p_comps].
+  unfold resolve_local_c, new_comp. cbn [c_locals resolve_local_in l_name l_depth].
+  destruct (bytes_eqb (bs "self") x); reflexivity.
+Qed.
+
+Definition can_assign (q : precedence) : bool := prec_leb q PrecAssignment.
+
+(* the part of parse_precedence that follows the prefix expression *)
+Definition K (q : precedence) (g : nat) (e : expr) : M expr :=
+  bind (r_infix_loop (R g) q (can_assign q) e) (fun e' =>
+  bind (if can_assign q then match_token TEqual else ret false) (fun eq =>
+  if eq then error "Invalid assignment target." else ret e')).
+
+Definition tprec (t : token) : nat := prec_index (r_prec (rules_ref (tk t))).
+
+Lemma K_stop : forall q g e pv t rest,
+  tprec t < prec_index q -> tk t <> TEqual ->
+  K q (S g) e (sst pv t rest) = POk (e, sst pv t rest).
+Proof.
+  intros q g e pv t rest Hp Ht. unfold K. rewrite R_S. unfold step, r_infix_loop, infix_loop, bind, current.
+  cbn [p_cur sst]. unfold prec_leb. unfold tprec in Hp.
+  assert (E : Nat.leb (prec_index q) (prec_index (r_prec (rules_ref (tk t)))) = false) by (apply Nat.leb_gt; exact Hp).
+  rewrite E. unfold ret.
+  destruct (can_assign q); [|reflexivity].
+  unfold match_token, bind, check. cbn [p_cur sst].
+  assert (E2 : tkind_eqb (tk t) TEqual = false).
+  { destruct (tk t); try reflexivity. contradiction. }
+  rewrite E2. reflexivity.
+Qed.
+
+(* ---------- token-level printer for the operator fragment ---------- *)
+Definition T (k : tkind) (s : list byte) : token := mkToken k 1 s.
+Definition unop_tkind (o : unop) : tkind :=
+  match o with UNeg => TMinus | UNot => TBang | UBitNot => TTilde end.
+Definition tkind_of_binop (o : binop) : tkind :=
+  match o with
+  | BAdd => TPlus | BSub => TMinus | BMul => TStar | BDiv => TSlash | BMod => TPercent
+  | BEq => TEqualEqual | BNe => TBangEqual | BLt => TLess | BLe => TLessEqual | BGt => TGreater
+  | BGe => TGreaterEqual | BBitAnd => TAmp | BBitOr => TBar | BBitXor => TCaret
+  | BShl => TLessLess | BShr => TGreaterGreater
+  end.
+
+Fixpoint tk_expr (p : nat) (e : expr) : list token :=
+  let body :=
+    match e with
+    | ENil => [T TNil (lit "nil")]
+    | ETrue => [T TTrue (lit "true")]
+    | EFalse => [T TFalse (lit "false")]
+    | EVar x => [T TIdentifier x]
+    | EStr s => [T TStr s]
+    | EUnary op a => T (unop_tkind op) (unop_text op) :: tk_expr 13 a
+    | EBinary op a b =>
+      tk_expr (binop_level op) a ++ T (tkind_of_binop op) (binop_text op) :: tk_expr (S (binop_level op)) b
+    | EAnd a b => tk_expr 4 a ++ T TAmpAmp (lit "&&") :: tk_expr 3 b
+    | EOr a b => tk_expr 3 a ++ T TBarBar (lit "||") :: tk_expr 2 b
+    | ERange a b => tk_expr 12 a ++ T TDotDot (lit "..") :: tk_expr 13 b
+    | _ => []
+    end in
+  if Nat.ltb (lvl e) p then T TLeftParen (lit "(") :: body ++ [T TRightParen (lit ")")] else body.
+
+Inductive frag : expr -> Prop :=
+| fr_nil : frag ENil | fr_true : frag ETrue | fr_false : frag EFalse
+| fr_var : forall x, frag (EVar x)
+| fr_str : forall s, frag (EStr s)
+| fr_un : forall op a, frag a -> frag (EUnary op a)
+| fr_bin : forall op a b, frag a -> frag b -> frag (EBinary op a b)
+| fr_and : forall a b, frag a -> frag b -> frag (EAnd a b)
+| fr_or : forall a b, frag a -> frag b -> frag (EOr a b)
+| fr_range : forall a b, frag a -> frag b -> frag (ERange a b).
+
+Fixpoint nodes (e : expr) : nat :=
+  match e with
+  | EUnary _ a => S (nodes a)
+  | EBinary _ a b | EAnd a b | EOr a b | ERange a b => S (nodes a + nodes b)
+  | _ => 1
+  end.
+
+(* fuel used along the left spine *)
+Fixpoint dspine (e : expr) (p : nat) : nat :=
+  if Nat.ltb (lvl e) p then 1 else
+  match e with
+  | EBinary op a _ => S (dspine a (binop_level op))
+  | EAnd a _ => S (dspine a 4)
+  | EOr a _ => S (dspine a 3)
+  | ERange a _ => S (dspine a 12)
+  | _ => 1
+  end.
+
+Lemma dspine_le : forall e p, 1 <= dspine e p <= nodes e.
+Proof.
+  induction e; intros p; cbn [dspine nodes]; destruct (Nat.ltb _ p); try lia;
+    match goal with
+    | IH : forall p, 1 <= dspine ?a p <= nodes ?a |- context [dspine ?a ?k] => specialize (IH k); lia
+    end.
+Qed.
+
+(* what may follow an expression printed at level p *)
+Definition follow_ok (p : nat) (t : token) : Prop :=
+  tk t <> TError /\ tk t <> TEqual /\ assign_op (tk t) = None /\
+  tprec t <= p /\ (tprec t = p -> 4 <= p).
+
+Definition last_tok (p : nat) (e : expr) : token := last (tk_expr p e) default_token.
+
+Definition claim (e : expr) (p : nat) : Prop :=
+  forall q pv t0 rest g f,
+    1 <= prec_index q <= p -> p <= 15 ->
+    follow_ok p t0 ->
+    f = g + dspine e p -> 4 * nodes e <= f + (if Nat.ltb (lvl e) p then 0 else 2) ->
+    r_parse_precedence (R f) q (sstr pv (tk_expr p e ++ t0 :: rest)) =
+    K q g e (sst (last_tok p e) t0 rest).
+
+Lemma can_assign_false : forall q, 2 <= prec_index q -> can_assign q = false.
+Proof. intros q H. unfold can_assign, prec_leb. apply Nat.leb_gt. cbn. lia. Qed.
+
+(* leaves *)
+Lemma claim_var : forall x p, claim (EVar x) p.
+Proof.
+  intros x p q pv t0 rest g f Hq Hp [F1 [F2 [F3 [F4 F5]]]] Hf Hsz.
+  assert (L : Nat.ltb (lvl (EVar x)) p = false) by (apply Nat.ltb_ge; cbn; lia).
+  cbn [dspine tk_expr] in *. rewrite L in *. cbn [app sstr].
+  subst f. rewrite Nat.add_1_r, R_S.
+  unfold step, r_parse_precedence, parse_precedence, bind.
+  rewrite advance_sst by exact F1. unfold previous. cbn [p_prev sst].
+  change (r_prefix (rules_ref (tk (T TIdentifier x)))) with (Some PVariable).
+  unfold prefix, variable, bind, previous. cbn [p_prev sst tsource T].
+  unfold named_variable, bind. rewrite resolve_variable_sst.
+  assert (E1 : (if prec_leb q PrecAssignment then match_token TEqual else ret false) (sst (T TIdentifier x) t0 rest)
+               = POk (false, sst (T TIdentifier x) t0 rest)).
+  { destruct (prec_leb q PrecAssignment); [|reflexivity].
+    unfold match_token, bind, check. cbn [p_cur sst].
+    destruct (tk t0); try reflexivity. contradiction. }
+  rewrite E1.
+  assert (E2 : (if prec_leb q PrecAssignment then match_binary_assignment else ret None) (sst (T TIdentifier x) t0 rest)
+               = POk (None, sst (T TIdentifier x) t0 rest)).
+  { destruct (prec_leb q PrecAssignment); [|reflexivity].
+    unfold match_binary_assignment, bind, current. cbn [p_cur sst]. rewrite F3. reflexivity. }
+  rewrite E2. unfold ret. unfold K, bind, last_tok. cbn [tk_expr]. rewrite L. cbn [last]. reflexivity.
+Qed.
+
+Lemma claim_leaf : forall e tok pk,
+  lvl e = 15 -> (forall p, p <= 15 -> tk_expr p e = [tok]) -> (forall p, p <= 15 -> dspine e p = 1) ->
+  r_prefix (rules_ref (tk tok)) = Some pk ->
+  (forall ca r s, p_prev s = tok -> prefix r pk ca s = POk (e, s)) ->
+  forall p, claim e p.
+Proof.
+  intros e tok pk Hl Htk Hd Hpre Hh p q pv t0 rest g f Hq Hp [F1 [F2 [F3 [F4 F5]]]] Hf Hsz.
+  rewrite (Htk p Hp), (Hd p Hp) in *. cbn [app sstr].
+  subst f. rewrite Nat.add_1_r, R_S.
+  unfold step, r_parse_precedence, parse_precedence, bind.
+  rewrite advance_sst by exact F1. unfold previous. cbn [p_prev sst].
+  rewrite Hpre. rewrite Hh by reflexivity.
+  unfold K, bind, last_tok. rewrite (Htk p Hp). cbn [last]. reflexivity.
+Qed.
+
+Ltac leaf_tk := intros p Hp; cbn [tk_expr dspine lvl];
+  replace (Nat.ltb 15 p) with false by (symmetry; apply Nat.ltb_ge; exact Hp); reflexivity.
+
+Lemma claim_nil : forall p, claim ENil p.
+Proof. apply (claim_leaf ENil (T TNil (lit "nil")) PLiteral); try reflexivity; try leaf_tk.
+  intros ca r s H. unfold prefix, literal, bind, previous. rewrite H. reflexivity. Qed.
+Lemma claim_true : forall p, claim ETrue p.
+Proof. apply (claim_leaf ETrue (T TTrue (lit "true")) PLiteral); try reflexivity; try leaf_tk.
+  intros ca r s H. unfold prefix, literal, bind, previous. rewrite H. reflexivity. Qed.
+Lemma claim_false : forall p, claim EFalse p.
+Proof. apply (claim_leaf EFalse (T TFalse (lit "false")) PLiteral); try reflexivity; try leaf_tk.
+  intros ca r s H. unfold prefix, literal, bind, previous. rewrite H. reflexivity. Qed.
+Lemma claim_str : forall s p, claim (EStr s) p.
+Proof. intros s0. apply (claim_leaf (EStr s0) (T TStr s0) PString); try reflexivity; try leaf_tk.
+  intros ca r s H. unfold prefix, string_, bind, previous. rewrite H. reflexivity. Qed.
+
+(* first and last tokens *)
+Lemma tk_expr_head : forall e, frag e -> forall p, exists c r,
+  tk_expr p e = c :: r /\ tk c <> TError /\ tk c <> TRightParen.
+Proof.
+  induction 1; intros p; cbn [tk_expr];
+    (destruct (Nat.ltb _ p);
+     [eexists _, _; split; [reflexivity|split; discriminate]|]).
+  1-5: eexists _, _; split; [reflexivity|split; discriminate].
+  - eexists _, _; split; [reflexivity|]. destruct op; split; discriminate.
+  - destruct (IHfrag1 (binop_level op)) as [c [r [E [N1 N2]]]]. rewrite E.
+    eexists _, _; split; [reflexivity|split; assumption].
+  - destruct (IHfrag1 4) as [c [r [E [N1 N2]]]]. rewrite E.
+    eexists _, _; split; [reflexivity|split; assumption].
+  - destruct (IHfrag1 3) as [c [r [E [N1 N2]]]]. rewrite E.
+    eexists _, _; split; [reflexivity|split; assumption].
+  - destruct (IHfrag1 12) as [c [r [E [N1 N2]]]]. rewrite E.
+    eexists _, _; split; [reflexivity|split; assumption].
+Qed.
+
+Lemma last_cons_ne : forall (A : Type) (y : A) l d, l <> [] -> last (y :: l) d = last l d.
+Proof. intros A y l d H. destruct l; [contradiction|reflexivity]. Qed.
+
+Lemma last_app_cons : forall (A : Type) (l : list A) x c r d, last (l ++ x :: c :: r) d = last (c :: r) d.
+Proof.
+  intros A l x c r d. induction l as [|y l IH].
+  - cbn [app]. apply last_cons_ne. discriminate.
+  - cbn [app]. rewrite last_cons_ne; [exact IH|]. destruct l; discriminate.
+Qed.
+
+Lemma tprec_ne_13 : forall t, tprec t <> 13.
+Proof. intros t. unfold tprec. destruct (tk t); cbn; lia. Qed.
+
+Lemma follow_weaken : forall p k t, follow_ok p t -> p <= k -> (p < k \/ k < 4) ->
+  follow_ok k t /\ tprec t < k.
+Proof.
+  intros p k t [F1 [F2 [F3 [F4 F5]]]] Hpk Hk.
+  assert (Hlt : tprec t < k).
+  { destruct Hk as [Hk|Hk]; [lia|].
+    destruct (Nat.eq_dec (tprec t) k) as [E|E]; [|lia].
+    assert (p = k) by lia. subst p. specialize (F5 E). lia. }
+  split; [|exact Hlt]. repeat split; try assumption; lia.
+Qed.
+
+(* binary-like constructs, not parenthesised *)
+Lemma claim_binlike : forall a b e p kl kr kop Top hh (C : expr -> expr -> expr) qr,
+  claim a kl -> claim b kr -> frag b ->
+  p <= kop -> Nat.ltb (lvl e) p = false ->
+  tk_expr p e = tk_expr kl a ++ Top :: tk_expr kr b ->
+  dspine e p = S (dspine a kl) -> nodes e = S (nodes a + nodes b) ->
+  tprec Top = kop -> r_infix (rules_ref (tk Top)) = Some hh ->
+  tk Top <> TError -> tk Top <> TEqual -> assign_op (tk Top) = None ->
+  prec_index qr = kr -> 2 <= kr -> kr <= 15 -> kl <= 15 ->
+  kop <= kl -> (kop = kl -> 4 <= kl) ->
+  (kop < kr \/ (kop = kr /\ kr < 4)) ->
+  (forall r left ca s, p_prev s = Top ->
+     infix rules_ref r hh left ca s = bind (r_parse_precedence r qr) (fun x => ret (C left x)) s) ->
+  e = C a b ->
+  claim e p.
+Proof.
+  intros a b e p kl kr kop Top hh C qr Ca Cb Fb Hpk L Htk Hd Hn Hprec Hinf N1 N2 N3 Hqr Hkr2 Hkr15 Hkl15
+         Hkl Hkl4 Hr Hh He.
+  intros q pv t0 rest g f Hq Hp Hfol Hf Hsz. rewrite L in Hsz.
+  pose proof (dspine_le a kl) as Da. pose proof (dspine_le b kr) as Db.
+  rewrite Htk, <- app_assoc. cbn [app].
+  (* left operand *)
+  rewrite (Ca q pv Top (tk_expr kr b ++ t0 :: rest) (S g) f); cycle 1.
+  { lia. } { exact Hkl15. }
+  { repeat split; try assumption; lia. }
+  { lia. }
+  { destruct (Nat.ltb (lvl a) kl); lia. }
+  (* the operator *)
+  destruct (tk_expr_head b Fb kr) as [cb [rb [Eb [Nb1 Nb2]]]].
+  unfold K at 1. rewrite R_S. unfold step at 1. cbn [r_infix_loop]. unfold infix_loop at 1, bind at 1 2.
+  unfold current at 1. cbn [p_cur sst].
+  assert (Hle : prec_leb q (r_prec (rules_ref (tk Top))) = true).
+  { unfold prec_leb. apply Nat.leb_le. unfold tprec in Hprec. lia. }
+  rewrite Hle. rewrite Eb. cbn [app]. unfold bind at 1. rewrite advance_sst by exact Nb1.
+  unfold bind at 1. unfold previous at 1. cbn [p_prev sst]. rewrite Hinf.
+  unfold bind at 1. rewrite Hh by reflexivity.
+  (* right operand *)
+  unfold bind at 1.
+  change (sst Top cb (rb ++ t0 :: rest)) with (sstr Top ((cb :: rb) ++ t0 :: rest)). rewrite <- Eb.
+  destruct (follow_weaken p kr t0 Hfol) as [Hfol' Hstop]; [lia| lia |].
+  destruct Hfol as [F1 [F2 [F3 [F4 F5]]]].
+  rewrite (Cb qr Top t0 rest (g - dspine b kr) g); cycle 1.
+  { lia. } { exact Hkr15. } { exact Hfol'. }
+  { lia. }
+  { destruct (Nat.ltb (lvl b) kr); lia. }
+  assert (Hg : exists g', g - dspine b kr = S g') by (exists (g - dspine b kr - 1); lia).
+  destruct Hg as [g' Hg]. rewrite Hg.
+  rewrite K_stop; [|lia|exact F2].
+  unfold ret at 1.
+  unfold K, bind. unfold last_tok. rewrite Htk, Eb, last_app_cons, <- Eb, He. reflexivity.
+Qed.
+
+Lemma frag_lvl_ge_2 : forall e, frag e -> 2 <= lvl e.
+Proof. induction 1; cbn [lvl]; try lia. destruct op; cbn; lia. Qed.
+
+Lemma tk_expr_wrapped : forall e p, frag e -> Nat.ltb (lvl e) p = true ->
+  tk_expr p e = T TLeftParen (lit "(") :: tk_expr 1 e ++ [T TRightParen (lit ")")].
+Proof.
+  intros e p F H. pose proof (frag_lvl_ge_2 e F) as L2.
+  assert (L1 : Nat.ltb (lvl e) 1 = false) by (apply Nat.ltb_ge; lia).
+  destruct F; cbn [tk_expr] in *; rewrite H, L1; reflexivity.
+Qed.
+
+Lemma last_snoc : forall (A : Type) (l : list A) x d, last (l ++ [x]) d = x.
+Proof. intros. apply last_last. Qed.
+
+Lemma claim_wrapped : forall e p, frag e -> claim e 1 -> Nat.ltb (lvl e) p = true -> claim e p.
+Proof.
+  intros e p F C1 W q pv t0 rest g f Hq Hp [F1 [F2 [F3 [F4 F5]]]] Hf Hsz.
+  pose proof (frag_lvl_ge_2 e F) as L2.
+  assert (L1 : Nat.ltb (lvl e) 1 = false) by (apply Nat.ltb_ge; lia).
+  rewrite W in Hsz.
+  assert (Hd : dspine e p = 1) by (destruct e; cbn [dspine]; rewrite W; reflexivity).
+  rewrite Hd in Hf. pose proof (dspine_le e 1) as D1.
+  assert (Hn : 1 <= nodes e) by lia.
+  rewrite (tk_expr_wrapped e p F W). cbn [app]. rewrite <- app_assoc. cbn [app].
+  destruct (tk_expr_head e F 1) as [c1 [r1 [E1 [N1 N2]]]].
+  subst f. rewrite Nat.add_1_r, R_S.
+  unfold step at 1. cbn [r_parse_precedence]. unfold parse_precedence, bind at 1.
+  rewrite E1. cbn [app sstr]. rewrite advance_sst by exact N1.
+  unfold bind at 1. unfold previous at 1. cbn [p_prev sst].
+  change (r_prefix (rules_ref (tk (T TLeftParen (lit "("))))) with (Some PGrouping).
+  unfold bind at 1. unfold prefix, grouping. unfold bind at 1. unfold check at 1. cbn [p_cur sst].
+  assert (Erp : tkind_eqb (tk c1) TRightParen = false) by (destruct (tk c1); try reflexivity; contradiction).
+  rewrite Erp. unfold bind at 1.
+  destruct g as [|g1]; [lia|]. rewrite R_S. unfold step at 1. cbn [r_group_loop].
+  unfold group_loop. unfold bind at 1. unfold expression. unfold bind at 1. unfold get at 1. cbn [p_stm sst].
+  change (sst (T TLeftParen (lit "(")) c1 (r1 ++ T TRightParen (lit ")") :: t0 :: rest))
+    with (sstr (T TLeftParen (lit "(")) ((c1 :: r1) ++ T TRightParen (lit ")") :: t0 :: rest)).
+  rewrite <- E1.
+  rewrite (C1 PrecAssignment (T TLeftParen (lit "(")) (T TRightParen (lit ")")) (t0 :: rest) (g1 - dspine e 1) g1); cycle 1.
+  { cbn. lia. } { lia. }
+  { repeat split; try discriminate; cbn; lia. }
+  { lia. }
+  { rewrite L1. lia. }
+  assert (Hg : exists g2, g1 - dspine e 1 = S g2) by (exists (g1 - dspine e 1 - 1); lia).
+  destruct Hg as [g2 Hg]. rewrite Hg.
+  rewrite K_stop; [|cbn; lia|discriminate].
+  cbn [Nat.eqb]. unfold bind at 1. unfold ret at 1. unfold bind at 1.
+  unfold match_token at 1. unfold bind at 1. unfold check at 1. cbn [p_cur sst tk T tkind_eqb tkind_index Nat.eqb].
+  unfold ret at 1. cbn [negb rev app]. unfold ret at 1.
+  unfold consume, bind at 1. unfold check at 1. cbn [p_cur sst tk T tkind_eqb tkind_index Nat.eqb].
+  unfold bind at 1. rewrite advance_sst by exact F1. unfold ret at 1.
+  unfold K, bind, last_tok. rewrite (tk_expr_wrapped e p F W).
+  change (T TLeftParen (lit "(") :: tk_expr 1 e ++ [T TRightParen (lit ")")])
+    with ((T TLeftParen (lit "(") :: tk_expr 1 e) ++ [T TRightParen (lit ")")]).
+  rewrite last_snoc. reflexivity.
+Qed.
+
+Lemma claim_unary : forall op a p, frag a -> claim a 13 -> Nat.ltb (lvl (EUnary op a)) p = false ->
+  claim (EUnary op a) p.
+Proof.
+  intros op a p Fa Ca L q pv t0 rest g f Hq Hp Hfol Hf Hsz.
+  rewrite L in Hsz. cbn [lvl] in L. apply Nat.ltb_ge in L.
+  pose proof (dspine_le a 13) as Da.
+  assert (Hd : dspine (EUnary op a) p = 1).
+  { cbn [dspine lvl]. replace (Nat.ltb 13 p) with false by (symmetry; apply Nat.ltb_ge; exact L). reflexivity. }
+  rewrite Hd in Hf. cbn [nodes] in Hsz.
+  assert (Etk : tk_expr p (EUnary op a) = T (unop_tkind op) (unop_text op) :: tk_expr 13 a).
+  { cbn [tk_expr lvl]. replace (Nat.ltb 13 p) with false by (symmetry; apply Nat.ltb_ge; exact L). reflexivity. }
+  rewrite Etk. cbn [app].
+  destruct (tk_expr_head a Fa 13) as [c1 [r1 [E1 [N1 N2]]]].
+  subst f. rewrite Nat.add_1_r, R_S.
+  unfold step at 1. cbn [r_parse_precedence]. unfold parse_precedence, bind at 1.
+  rewrite E1. cbn [app sstr]. rewrite advance_sst by exact N1.
+  unfold bind at 1. unfold previous at 1. cbn [p_prev sst].
+  assert (Epre : r_prefix (rules_ref (tk (T (unop_tkind op) (unop_text op)))) = Some PUnary)
+    by (destruct op; reflexivity).
+  rewrite Epre. unfold bind at 1. unfold prefix, unary. unfold bind at 1. unfold previous at 1. cbn [p_prev sst].
+  unfold bind at 1.
+  change (sst (T (unop_tkind op) (unop_text op)) c1 (r1 ++ t0 :: rest))
+    with (sstr (T (unop_tkind op) (unop_text op)) ((c1 :: r1) ++ t0 :: rest)).
+  rewrite <- E1.
+  destruct Hfol as [F1 [F2 [F3 [F4 F5]]]].
+  rewrite (Ca PrecUnary (T (unop_tkind op) (unop_text op)) t0 rest (g - dspine a 13) g); cycle 1.
+  { cbn. lia. } { lia. }
+  { repeat split; try assumption; lia. }
+  { lia. }
+  { destruct (Nat.ltb (lvl a) 13); lia. }
+  assert (Hg : exists g2, g - dspine a 13 = S g2) by (exists (g - dspine a 13 - 1); lia).
+  destruct Hg as [g2 Hg]. rewrite Hg.
+  rewrite K_stop; [|pose proof (tprec_ne_13 t0); cbn; lia|exact F2].
+  assert (Eop : unop_of_tkind (tk (T (unop_tkind op) (unop_text op))) = Some op) by (destruct op; reflexivity).
+  rewrite Eop. unfold ret at 1.
+  unfold K, bind, last_tok. rewrite Etk, E1. rewrite (last_cons_ne _ (T (unop_tkind op) (unop_text op)) (c1 :: r1)) by congruence. reflexivity.
+Qed.
+
+Theorem claim_all : forall e, frag e -> forall p, claim e p.
+Proof.
+  induction 1 as [| | |x|s|op a Fa IHa|op a b Fa IHa Fb IHb|a b Fa IHa Fb IHb|a b Fa IHa Fb IHb|a b Fa IHa Fb IHb];
+    intros p.
+  - apply claim_nil.
+  - apply claim_true.
+  - apply claim_false.
+  - apply claim_var.
+  - apply claim_str.
+  - assert (U : forall p, Nat.ltb (lvl (EUnary op a)) p = false -> claim (EUnary op a) p)
+      by (intros p' L; apply claim_unary; [exact Fa|apply IHa|exact L]).
+    destruct (Nat.ltb (lvl (EUnary op a)) p) eqn:W; [|apply U; exact W].
+    apply claim_wrapped; [constructor; exact Fa|apply U; reflexivity|exact W].
+  - assert (U : forall p, Nat.ltb (lvl (EBinary op a b)) p = false -> claim (EBinary op a b) p).
+    { intros p' L.
+      apply (claim_binlike a b (EBinary op a b) p' (binop_level op) (S (binop_level op)) (binop_level op)
+               (T (tkind_of_binop op) (binop_text op)) IBinary (EBinary op)
+               (prec_succ (r_prec (rules_ref (tkind_of_binop op)))));
+        try (apply IHa); try (apply IHb); try exact Fb; try exact L;
+        try (cbn [lvl] in L; apply Nat.ltb_ge in L; exact L);
+        try (cbn [tk_expr dspine]; rewrite L; reflexivity);
+        try reflexivity;
+        try (destruct op; cbn; (reflexivity || discriminate || lia)).
+      - intros r left ca s Hs. unfold infix, binary, bind, previous. rewrite Hs.
+        cbn [tk T]. destruct op; reflexivity. }
+    destruct (Nat.ltb (lvl (EBinary op a b)) p) eqn:W; [|apply U; exact W].
+    apply claim_wrapped; [constructor; assumption| |exact W].
+    apply U. apply Nat.ltb_ge. cbn [lvl]. destruct op; cbn; lia.
+  - assert (U : forall p, Nat.ltb (lvl (EAnd a b)) p = false -> claim (EAnd a b) p).
+    { intros p' L.
+      apply (claim_binlike a b (EAnd a b) p' 4 3 3 (T TAmpAmp (lit "&&")) IAnd EAnd PrecAnd);
+        try (apply IHa); try (apply IHb); try exact Fb; try exact L;
+        try (cbn [lvl] in L; apply Nat.ltb_ge in L; exact L);
+        try (cbn [tk_expr dspine]; rewrite L; reflexivity);
+        try reflexivity; try discriminate; try (cbn; lia). }
+    destruct (Nat.ltb (lvl (EAnd a b)) p) eqn:W; [|apply U; exact W].
+    apply claim_wrapped; [constructor; assumption|apply U; reflexivity|exact W].
+  - assert (U : forall p, Nat.ltb (lvl (EOr a b)) p = false -> claim (EOr a b) p).
+    { intros p' L.
+      apply (claim_binlike a b (EOr a b) p' 3 2 2 (T TBarBar (lit "||")) IOr EOr PrecOr);
+        try (apply IHa); try (apply IHb); try exact Fb; try exact L;
+        try (cbn [lvl] in L; apply Nat.ltb_ge in L; exact L);
+        try (cbn [tk_expr dspine]; rewrite L; reflexivity);
+        try reflexivity; try discriminate; try (cbn; lia). }
+    destruct (Nat.ltb (lvl (EOr a b)) p) eqn:W; [|apply U; exact W].
+    apply claim_wrapped; [constructor; assumption|apply U; reflexivity|exact W].
+  - assert (U : forall p, Nat.ltb (lvl (ERange a b)) p = false -> claim (ERange a b) p).
+    { intros p' L.
+      apply (claim_binlike a b (ERange a b) p' 12 13 12 (T TDotDot (lit "..")) IDotDot ERange PrecUnary);
+        try (apply IHa); try (apply IHb); try exact Fb; try exact L;
+        try (cbn [lvl] in L; apply Nat.ltb_ge in L; exact L);
+        try (cbn [tk_expr dspine]; rewrite L; reflexivity);
+        try reflexivity; try discriminate; try (cbn; lia). }
+    destruct (Nat.ltb (lvl (ERange a b)) p) eqn:W; [|apply U; exact W].
+    apply claim_wrapped; [constructor; assumption|apply U; reflexivity|exact W].
+Qed.
+
+Definition eof1 : token := mkToken TEof 1 [].
+
+Lemma nodes_le_tokens : forall e, frag e -> forall p, nodes e <= length (tk_expr p e).
+Proof.
+  induction 1; intros p; cbn [tk_expr nodes];
+    destruct (Nat.ltb _ p);
+    repeat match goal with
+           | IH : forall p, nodes ?x <= length (tk_expr p ?x) |- context [tk_expr ?k ?x] =>
+             specialize (IH k)
+           end;
+    cbn [length]; rewrite ?app_length; cbn [length]; rewrite ?app_length; cbn [length]; lia.
+Qed.
+
+(* pratt_roundtrip at token level, for every expression of the operator fragment (unbounded) *)
+Theorem pratt_roundtrip_tokens : forall e, frag e ->
+  parse_expr (tk_expr 1 e ++ [eof1]) = POk e.
+Proof.
+  intros e F. unfold parse_expr, parse_expr_with, run.
+  set (toks := tk_expr 1 e ++ [eof1]).
+  change (init_pstate toks) with (sst default_token default_token toks).
+  destruct (tk_expr_head e F 1) as [c1 [r1 [E1 [N1 N2]]]].
+  pose proof (nodes_le_tokens e F 1) as NL. pose proof (dspine_le e 1) as D1.
+  assert (Hlen : length toks = S (length (tk_expr 1 e))) by (unfold toks; rewrite app_length; cbn; lia).
+  unfold bind at 1. unfold toks at 1. rewrite E1. cbn [app]. rewrite advance_sst by exact N1.
+  unfold bind at 1. unfold expression. unfold bind at 1. unfold get at 1. cbn [p_stm sst].
+  change (sst default_token c1 (r1 ++ [eof1])) with (sstr default_token ((c1 :: r1) ++ eof1 :: [])).
+  rewrite <- E1.
+  change (knot rules_ref (default_fuel toks)) with (R (default_fuel toks)).
+  pose proof (frag_lvl_ge_2 e F) as L2.
+  assert (L1 : Nat.ltb (lvl e) 1 = false) by (apply Nat.ltb_ge; lia).
+  rewrite (claim_all e F 1 PrecAssignment default_token eof1 [] (default_fuel toks - dspine e 1) (default_fuel toks)); cycle 1.
+  { cbn. lia. } { lia. }
+  { repeat split; try discriminate; cbn; lia. }
+  { unfold default_fuel. lia. }
+  { rewrite L1. unfold default_fuel. lia. }
+  assert (Hg : exists g2, default_fuel toks - dspine e 1 = S g2).
+  { exists (default_fuel toks - dspine e 1 - 1). unfold default_fuel. lia. }
+  destruct Hg as [g2 Hg]. rewrite Hg.
+  rewrite K_stop; [|cbn; lia|discriminate].
+  unfold bind at 1. unfold consume, bind at 1. unfold check at 1. cbn [p_cur sst tk eof1 tkind_eqb tkind_index Nat.eqb].
+  reflexivity.
+Qed.
+
+(* ---------- general associativity / precedence lemmas (symbolic names) ---------- *)
+Definition id_tok (x : name) : token := T TIdentifier x.
+Definition op_tok (o : binop) : token := T (tkind_of_binop o) (binop_text o).
+
+Lemma binop_level_bounds : forall o, 4 <= binop_level o <= 11.
+Proof. destruct o; cbn; lia. Qed.
+
+Ltac level_facts op :=
+  let H := fresh in pose proof (binop_level_bounds op) as H.
+
+(* same level: left associative *)
+Theorem binary_left_assoc : forall op1 op2 x y z,
+  binop_level op1 = binop_level op2 ->
+  parse_expr [id_tok x; op_tok op1; id_tok y; op_tok op2; id_tok z; eof1] =
+  POk (EBinary op2 (EBinary op1 (EVar x) (EVar y)) (EVar z)).
+Proof.
+  intros op1 op2 x y z H.
+  rewrite <- (pratt_roundtrip_tokens (EBinary op2 (EBinary op1 (EVar x) (EVar y)) (EVar z)))
+    by (repeat constructor).
+  f_equal. pose proof (binop_level_bounds op1). pose proof (binop_level_bounds op2).
+  cbn [tk_expr lvl].
+  repeat match goal with
+         | |- context [Nat.ltb ?a ?b] =>
+           first [ replace (Nat.ltb a b) with false by (symmetry; apply Nat.ltb_ge; lia) ]
+         end.
+  reflexivity.
+Qed.
+
+(* higher level on the right: the right operator binds tighter *)
+Theorem precedence_order_right : forall op1 op2 x y z,
+  binop_level op1 < binop_level op2 ->
+  parse_expr [id_tok x; op_tok op1; id_tok y; op_tok op2; id_tok z; eof1] =
+  POk (EBinary op1 (EVar x) (EBinary op2 (EVar y) (EVar z))).
+Proof.
+  intros op1 op2 x y z H.
+  rewrite <- (pratt_roundtrip_tokens (EBinary op1 (EVar x) (EBinary op2 (EVar y) (EVar z))))
+    by (repeat constructor).
+  f_equal. pose proof (binop_level_bounds op1). pose proof (binop_level_bounds op2).
+  cbn [tk_expr lvl].
+  repeat match goal with
+         | |- context [Nat.ltb ?a ?b] =>
+           first [ replace (Nat.ltb a b) with false by (symmetry; apply Nat.ltb_ge; lia) ]
+         end.
+  reflexivity.
+Qed.
+
+(* higher level on the left: the left operator binds tighter *)
+Theorem precedence_order_left : forall op1 op2 x y z,
+  binop_level op2 < binop_level op1 ->
+  parse_expr [id_tok x; op_tok op1; id_tok y; op_tok op2; id_tok z; eof1] =
+  POk (EBinary op2 (EBinary op1 (EVar x) (EVar y)) (EVar z)).
+Proof.
+  intros op1 op2 x y z H.
+  rewrite <- (pratt_roundtrip_tokens (EBinary op2 (EBinary op1 (EVar x) (EVar y)) (EVar z)))
+    by (repeat constructor).
+  f_equal. pose proof (binop_level_bounds op1). pose proof (binop_level_bounds op2).
+  cbn [tk_expr lvl].
+  repeat match goal with
+         | |- context [Nat.ltb ?a ?b] =>
+           first [ replace (Nat.ltb a b) with false by (symmetry; apply Nat.ltb_ge; lia) ]
+         end.
+  reflexivity.
+Qed.
+Print Assumptions pratt_roundtrip_tokens.
+Print Assumptions binary_left_assoc.
+
+(* text level: what is missing is the (purely lexical) fact that scanning the printed text gives
+   the token sequence tk_expr; it is stated as a hypothesis here and checked on examples *)
+Theorem pratt_roundtrip_partial : forall e, frag e ->
+  scan_all (pretty_expr e) = tk_expr 1 e ++ [eof1] ->
+  parse_expr_source (pretty_expr e) = POk e.
+Proof.
+  intros e F H. unfold parse_expr_source. rewrite H. apply pratt_roundtrip_tokens. exact F.
+Qed.
+
+Example pratt_roundtrip_partial_hyp_ex :
+  let a := EVar (lit "a") in let b := EVar (lit "b") in
+  let e := EBinary BMul (EBinary BSub a (EUnary UNot b))
+                        (EOr (EAnd a (ERange b (EStr (lit "s")))) (EBinary BSub a (EBinary BSub b ENil))) in
+  frag e /\ scan_all (pretty_expr e) = tk_expr 1 e ++ [eof1].
+Proof. split; [repeat constructor|vm_compute; reflexivity]. Qed.
+
+End Pratt.
